@@ -729,6 +729,10 @@ func init() {
 		f.O.Budget += 4
 		f.O.Backoff = !f.W.Tape.Flip("nobackoff10", 250)
 		f.O.PartW = f.W.Tape.Draw("partw10", 3)
+		f.O.HalfCloseW = 1 + f.W.Tape.Draw("halfclosew10", 4)
+		if f.O.BreakW == 0 {
+			f.O.BreakW = 1
+		}
 	}, "write_break", "short_write_timeout", "backoff_checked")})
 	// partitions without reset, preferably inside large inbound packets:
 	// the client has only its PauseTimeout to notice
